@@ -36,7 +36,7 @@ class Part:
 
 def _env(part: Part):
     env = dict(os.environ)
-    pp = [str(HERE)]
+    pp = [str(HERE), os.environ.get("VT_REPO", "/repo") + "/src"]
     if part.pure_pydantic:
         pp.insert(0, "/verif/.venv/purepyd")
     if env.get("PYTHONPATH"):
@@ -163,7 +163,8 @@ class Report:
 
     # -- output -------------------------------------------------------------------
     def finish(self) -> int:
-        out = HERE / "out" / "replays" / self.prop
+        OUT = Path(os.environ.get("VT_OUT", str(HERE)))
+        out = OUT / "out" / "replays" / self.prop
         if out.exists():
             for old in out.iterdir():
                 old.unlink()
@@ -244,8 +245,8 @@ class Report:
             "wall_s": round(time.time() - self.t0, 2),
             "violations": len(self.violations),
         }
-        evd = HERE / "evidence"
-        evd.mkdir(exist_ok=True)
+        evd = OUT / "evidence"
+        evd.mkdir(parents=True, exist_ok=True)
         (evd / f"{self.prop}.json").write_text(json.dumps(ev, indent=1, default=repr) + "\n")
         for ln in lines:
             print(ln)
